@@ -22,6 +22,15 @@ type modSource struct {
 	Parsed   bool // produced by asm (IDs pre-assigned in textual order) or by the ir constructors (IDs unassigned)
 	Build    func() *ir.Module
 	Unnamed  bool // has unnamed globals, locals and metadata definitions
+	// How the module was built, for signatures: "" (parser or constructors only),
+	// "late-fields" (exported fields set after the constructors), "literal"
+	// (struct literals, lazily cached fields left nil where the documentation allows it).
+	Construction string
+	// ModulePrintersOnly: run with the "module" mix only. The property these
+	// sources probe is that *module printers among themselves* stay race-free when
+	// lazily cached fields are nil or stale; what lock-free readers do next to a
+	// first print is the known residual and is measured on the other sources.
+	ModulePrintersOnly bool
 }
 
 // parsedMix has unnamed globals, unnamed functions used as callees, unnamed
@@ -177,12 +186,97 @@ func builtWide() *ir.Module {
 	return m
 }
 
+// builtLateFields uses the constructors and then sets exported fields, which is
+// as legal as passing everything to a constructor: address spaces (the pointer
+// type cached by the constructor is then stale), content type, alignment,
+// linkage. The objects are referenced only through constructors that do not ask
+// for their type (NewLoad, NewRet, NewPtrToInt, metadata), so nothing refreshes a
+// cache before the first print.
+func builtLateFields() *ir.Module {
+	m := ir.NewModule()
+	var gs []*ir.Global
+	for i := 0; i < 4; i++ {
+		g := m.NewGlobalDef("", constant.NewInt(types.I32, int64(i)))
+		g.AddrSpace = types.AddrSpace(i) // 0 for the first: not stale
+		g.Align = 4
+		if i == 3 {
+			g.ContentType = types.I64
+			g.Init = constant.NewInt(types.I64, 7)
+			g.Immutable = true
+		}
+		gs = append(gs, g)
+	}
+	ng := m.NewGlobal("ext", types.I8)
+	ng.AddrSpace = 3
+	ng.Linkage = enum.LinkageExternal
+	md := &metadata.Tuple{MetadataID: -1}
+	m.MetadataDefs = append(m.MetadataDefs, md)
+	for i := 0; i < 3; i++ {
+		f := m.NewFunc("", types.I64, ir.NewParam("", types.I64))
+		f.AddrSpace = types.AddrSpace(2 * i)
+		f.Align = 16
+		b := f.NewBlock("")
+		a := b.NewAlloca(types.I32)
+		a.AddrSpace = types.AddrSpace(5 * i)
+		a.Align = 8
+		x := b.NewLoad(types.I32, gs[i+1])
+		x.Metadata = append(x.Metadata, &metadata.Attachment{Name: "foo", Node: md})
+		y := b.NewLoad(types.I8, ng)
+		_ = y
+		z := b.NewLoad(types.I32, a)
+		_ = z
+		p := b.NewPtrToInt(gs[(i+2)%4], types.I64)
+		q := b.NewPtrToInt(x, types.I64)
+		_ = q
+		b.NewRet(p)
+	}
+	return m
+}
+
+// builtLiterals builds the objects whose documentation allows it as struct
+// literals: "If Typ is nil, the first invocation of Type stores a pointer type"
+// (ir.Global, ir.Func); instructions are given as literals with their lazily
+// cached Typ left nil as well (InstAlloca, InstAdd, InstLoad need none).
+func builtLiterals() *ir.Module {
+	m := ir.NewModule()
+	var gs []*ir.Global
+	for i := 0; i < 3; i++ {
+		g := &ir.Global{ContentType: types.I32, Init: constant.NewInt(types.I32, int64(i)), AddrSpace: types.AddrSpace(i)}
+		m.Globals = append(m.Globals, g)
+		gs = append(gs, g)
+	}
+	callee := &ir.Func{Sig: types.NewFunc(types.I64), Parent: m}
+	callee.SetName("ext")
+	m.Funcs = append(m.Funcs, callee)
+	// a global initialised with the address of the literal function
+	fp := &ir.Global{ContentType: types.NewPointer(callee.Sig), Init: callee}
+	fp.SetName("fp")
+	m.Globals = append(m.Globals, fp)
+	for i := 0; i < 3; i++ {
+		f := &ir.Func{Sig: types.NewFunc(types.I64, types.I64), Params: []*ir.Param{ir.NewParam("", types.I64)}, Parent: m}
+		m.Funcs = append(m.Funcs, f)
+		b := &ir.Block{Parent: f}
+		f.Blocks = append(f.Blocks, b)
+		a := &ir.InstAlloca{ElemType: types.I32, AddrSpace: types.AddrSpace(i)}
+		x := ir.NewLoad(types.I32, gs[i])
+		s := &ir.InstAdd{X: x, Y: constant.NewInt(types.I32, 1)}
+		z := ir.NewLoad(types.I32, a)
+		p := ir.NewPtrToInt(gs[(i+1)%3], types.I64)
+		q := ir.NewPtrToInt(callee, types.I64)
+		b.Insts = append(b.Insts, a, x, s, z, p, q)
+		b.Term = ir.NewRet(p)
+	}
+	return m
+}
+
 // sources returns the module sources of a tier.
 func sources(tier string) []modSource {
 	out := []modSource{
 		parseSource("parsed:mix", parsedMix),
 		{Name: "built:mix", Build: builtMix, Unnamed: true},
 		{Name: "built:wide", Build: builtWide, Unnamed: true},
+		{Name: "built:late-fields", Build: builtLateFields, Unnamed: true, Construction: "late-fields", ModulePrintersOnly: true},
+		{Name: "built:literals", Build: builtLiterals, Unnamed: true, Construction: "literal", ModulePrintersOnly: true},
 	}
 	files, _ := filepath.Glob(filepath.Join(mbt.Repo, "asm", "testdata", "*.ll"))
 	sort.Strings(files)
